@@ -64,9 +64,8 @@ def _classify(op, a, b):
             xs, ys = x.get(key, []), y.get(key, [])
             if xs == ys:
                 continue
-            if i in no_r and key in ("cells", "rows", "links"):
-                add("cell-without-r", f"sheet {i}: cells or rows carry no r attribute")
-                continue
+            # (sheets whose rows / cells omit r are classified like any other since fix 8281a0c:
+            #  a position difference there is a new failure)
             if key in ("cells", "links"):
                 da = {it.split("/")[0]: it for it in xs}
                 db = {it.split("/")[0]: it for it in ys}
@@ -135,7 +134,7 @@ PROP = {
                   "exact binary64 bit patterns, style facts through cellXfs (numFmt id / custom code, bold, fill pattern and foreground colour), columns, rows, hyperlinks "
                   "through the rels part, tables, defined names, sheet list. Its view must equal the view printed from the workbook the LIBRARY loaded (read_reader + public getters). "
                   "Theorems (all inputs of the stated shape, no size bounds): C03_attr / C03_text (the library's unescaping returns the XML value whenever the XML reader accepts "
-                  "the text; sharp by *_fails), C03_cols (col span expansion), C03_shared_formula (a child's reference tokens are translated exactly as the spec translator prints "
+                  "the text, literal line ends and attribute white space included), C03_cols (col span expansion), C03_shared_formula (a child's reference tokens are translated exactly as the spec translator prints "
                   "them, every offset incl. negative ones, from C09_translate_ref), C03_value_number / C03_value_error, C03_cell_partial.",
     "level_note": "The file-level agreement is validated per file, NOT proved for all valid files: there is no Lean model of the whole reader. The model of the cell reader "
                   "(Umya/Model/Reader.lean) is tied to the code indirectly: the driver runs it next to the spec on every <c> of every file (reported as model-vs-spec-cells in the "
@@ -143,7 +142,7 @@ PROP = {
                   "verified against the standards' text), the zip crate, the harness view function and generator, the classifier in this file. Below the abstraction (not compared): "
                   "empty string vs no value, blank hyperlink-anchor cells, default-width columns, optional apostrophes around plain sheet names in defined names, order of tables.",
     "expect_theorems": ["C03_attr", "C03_attr_get", "C03_text", "C03_cols", "C03_shared_formula", "C03_value_number", "C03_value_error", "C03_cell_partial",
-                        "C03_attr_literal_whitespace_fails", "C03_text_literal_cr_fails", "C03_cell_edge_blanks_fails"],
+                        "C03_attr_literal_whitespace", "C03_text_literal_cr", "C03_cell_edge_blanks_fails"],
     "rule": "case = one xlsx file: `c03 reset file <corpus file>`, `c03 reset gen <seed>` (grammar derivation from the seed; productions listed at the top of harness/src/c03.rs and "
             "counted as prod.* in the distribution: cell encodings t=absent/n/s/str/inlineStr/b/e with and without formula, number forms, shared/inline strings plain/rich/phonetic/"
             "xml:space/looks-typed, entities and character references in text and attributes, shared-formula blocks with the master anywhere in its ref and children right/below/"
@@ -153,7 +152,7 @@ PROP = {
             "non-trivial = every part / decode request; distinct = distinct request line",
     "trusted_base": TB_COMMON + ["independent decoder Umya/Spec/XmlLex.lean + Sml.lean + SharedFormula.lean + Double.lean (executed, not verified against the standards' text)",
                                  "zip crate", "harness generator and view (harness/src/c03.rs)", "difference classifier (tools/props.d/C03.py)"],
-    "assumptions": ["attribute texts without literal tab / LF / CR and character data without literal CR for C03_attr / C03_text (the code deviates otherwise: *_fails)",
+    "assumptions": ["C03_attr / C03_text hold for every raw text the XML reader accepts (since fix ddd0f34 no hypothesis on literal white space)",
                     "cell elements of `validCell`: unprefixed element names, at most one f / v, texts without blanks at their ends, `<v>` fitting the cell type",
                     "Rust's f64 parser is correctly rounded (the spec side computes the nearest binary64 exactly with integer arithmetic)"],
     "partial_clauses": ["whole-file agreement is validated per file (translation validation), not proved",
